@@ -200,6 +200,9 @@ func (r *c13run) enumerate() *core.Violation {
 		}
 	}
 	for _, cd := range cands {
+		if r.c.Expired() {
+			break
+		}
 		p := r.pages[cd.p]
 		var masks [][]byte
 		if sc.AllBits {
